@@ -416,7 +416,8 @@ def model(world, gene_obj, reads, lo, hi, multi_sites):
                 for j in range(k):
                     table[pos + j]["-"][(mq, None)] += 1
                 if pos in phaseable:
-                    rshown.setdefault(pos, set()).add("del" + contig[pos : pos + k])
+                    # deleted bases are spelled against the database's reference (N beyond its range)
+                    rshown.setdefault(pos, set()).add("del" + gene_obj[pos : pos + k])
                 pos += k
             elif o == "I":
                 if not r.get("noqual"):
